@@ -3,6 +3,7 @@
 from __future__ import annotations
 
 import json
+import copy
 import os
 import subprocess
 import sys
@@ -138,6 +139,11 @@ def _cases(draw):
                                 {'id': 'zz', 'version': '9'}, {'id': 'u0', 'version': '1'},
                                 {'id': 'u2', 'version': '1'}, {'id': 'yy', 'version': '9'}]
         lexicons.append(tlex)
+        # another version of it with the same ids and ILIs: selected together, both copies of
+        # every concept turn up among the common hypernyms
+        t2 = copy.deepcopy(tlex)
+        t2['version'] = '2'
+        lexicons.append(t2)
     return {'resource': {'lmf_version': version, 'lexicons': lexicons}}
 
 
@@ -195,7 +201,8 @@ def oracle(case):
     seeds = list(range(8 if os.environ.get('WNV_TIER') == 'thorough' else 4))
     configs = [['files'], ['d:1', ''], [None, None]]
     if len(case['resource']['lexicons']) > 1:
-        configs += [['t:1', ''], ['t:1', 'd:1'], ['t:1 d:1', None], ['t:1', None]]
+        configs += [['t:1', ''], ['t:1', 'd:1'], ['t:1 d:1', None], ['t:1', None],
+                    ['t:1 t:2', 'd:1']]
     outs = {}
     procs = []
     for hs in seeds:
